@@ -252,3 +252,21 @@ mutant("C10-M6", "C10", "R10a", "capture takes only the first row of timed compa
 mutant("C10-M7", "C10", "R10d", "to_excel writes dt from the year", PA, "Initialization.to_excel", "\"dt\": self.dt,", "\"dt\": self.year,")
 mutant("C10-M8", "C10", "R10a", "capture skips the last population", PA, "Initialization.from_result", "        for pop in res.model.pops:\n", "        for pop in res.model.pops:\n            if pop is res.model.pops[-1]:\n                continue\n")
 twin("C10-T1", "C10", "loop variables renamed in apply", PA, "Initialization.apply", "        for comp in pop.comps:\n            if isinstance(comp, TimedCompartment):\n                if (comp.name, pop.name) not in self.values:\n                    comp._vals[:, 0] = 0\n                else:\n                    comp._vals[:, 0] = self.values[(comp.name, pop.name)]\n            else:\n                if (comp.name, pop.name) not in self.values:\n                    comp.vals[0] = 0\n                else:\n                    comp.vals[0] = self.values[(comp.name, pop.name)]", "        for c in pop.comps:\n            if isinstance(c, TimedCompartment):\n                if (c.name, pop.name) not in self.values:\n                    c._vals[:, 0] = 0\n                else:\n                    c._vals[:, 0] = self.values[(c.name, pop.name)]\n            else:\n                if (c.name, pop.name) not in self.values:\n                    c.vals[0] = 0\n                else:\n                    c.vals[0] = self.values[(c.name, pop.name)]")
+
+# =============================================================================================== C11
+mutant("C11-M1", "C11", "R11a", "final np.minimum(., 1.0) deleted in get_prop_coverage", PR, "ProgramSet.get_prop_coverage", "            prop_coverage[prog.name] = np.minimum(prop_coverage[prog.name], 1.0)\n", "")
+mutant("C11-M2", "C11", "R11b", "np.maximum with the capacity constraint", PR, "Program.get_capacity", "capacity = np.minimum(capacity_constraint, capacity)", "capacity = np.maximum(capacity_constraint, capacity)")
+mutant("C11-M3", "C11", "R11d", "one-off spending without * dt", PR, "Program.get_capacity", "            spending *= dt\n", "            pass\n")
+mutant("C11-M4", "C11", "R11c", "coverage overwrite reads capacities", PR, "ProgramSet.get_prop_coverage", "prop_coverage[prog.name] = instructions.coverage[prog.name].interpolate(tvec, method=\"previous\")", "prop_coverage[prog.name] = np.minimum(instructions.coverage[prog.name].interpolate(tvec, method=\"previous\"), capacities[prog.name])")
+mutant("C11-M5", "C11", "R11d", "if not prog.is_one_off in get_capacities", PR, "ProgramSet.get_capacities", "                if prog.is_one_off:\n                    capacities[prog.name] *= dt", "                if not prog.is_one_off:\n                    capacities[prog.name] *= dt")
+mutant("C11-M7", "C11", "R11f", "capacity = unit_cost / spending", PR, "Program.get_capacity", "capacity = spending / unit_cost", "capacity = unit_cost / spending")
+mutant("C11-M8", "C11", "R11a", "saturation branch loses its clamp", PR, "Program.get_prop_covered", "            prop_covered = np.minimum(prop_covered, 1.0)  # Ensure that coverage doesn't go above 1 (if saturation is < 1)\n", "")
+mutant("C11-M9", "C11", "R11a", "unsaturated branch is a plain division", PR, "Program.get_prop_covered", "prop_covered = np.divide(capacity, eligible, out=np.ones_like(capacity), where=eligible > capacity)", "prop_covered = capacity / eligible")
+mutant("C11-M10", "C11", "R11d", "per-year capacity constraint not scaled by dt", PR, "Program.get_capacity", "                capacity_constraint *= dt\n", "                pass\n")
+mutant("C11-M11", "C11", "R11e", "get_capacities decides the kind from the coverage units", PR, "ProgramSet.get_capacities", "                if prog.is_one_off:\n                    capacities[prog.name] *= dt", "                if \"/year\" in prog.coverage.units:\n                    capacities[prog.name] *= dt")
+mutant("C11-M12", "C11", "R11f", "saturation curve sign flipped", PR, "Program.get_prop_covered", "prop_covered = 2 * saturation / (1 + exp(-2 * prop_covered / saturation)) - saturation", "prop_covered = 2 * saturation / (1 + exp(2 * prop_covered / saturation)) - saturation")
+mutant("C11-M13", "C11", "R11b", "cap applied only when the constraint is per year", PR, "Program.get_capacity", "                capacity_constraint *= dt\n            capacity = np.minimum(capacity_constraint, capacity)", "                capacity_constraint *= dt\n                capacity = np.minimum(capacity_constraint, capacity)")
+mutant("C11-M14", "C11", "R11d", "coverage overwrite dt factor dropped", PR, "ProgramSet.get_prop_coverage", "                if prog.is_one_off:\n                    # Coverage overwrites for one off programs are specified in /year units, therefore they get adjusted by dt here\n                    prop_coverage[prog.name] *= dt\n", "")
+twin("C11-T1", "C11", "np.clip(x, None, 1.0)", PR, "ProgramSet.get_prop_coverage", "prop_coverage[prog.name] = np.minimum(prop_coverage[prog.name], 1.0)", "prop_coverage[prog.name] = np.clip(prop_coverage[prog.name], None, 1.0)")
+twin("C11-T2", "C11", "dt * spending / unit_cost", PR, "Program.get_capacity", "            spending *= dt\n\n        capacity = spending / unit_cost", "            spending = dt * spending\n\n        capacity = (1 / unit_cost) * spending")
+twin("C11-T3", "C11", "cap with arguments swapped", PR, "Program.get_capacity", "capacity = np.minimum(capacity_constraint, capacity)", "capacity = np.minimum(capacity, capacity_constraint)")
